@@ -957,6 +957,49 @@ def rule_bundle_typed(rep, F):
             rep.violation("BUNDLE-typed", key, "%s stores its argument without a test: a MultiAsset / Value built through the typed API can hold %s, which the writer emits as it is; the Conway CDDL requires non-empty bundles of positive quantities" % (key, what), {})
 
 
+JSON_VALID_OK = {
+    ("Certificate", "Certificate::new_reg_cert"): "fails only when the wrapped constructor fails; the variant payloads are judged on their own",
+    ("Certificate", "Certificate::new_unreg_cert"): "same",
+    ("Nonce", "Nonce::new_from_hash"): "checks the length of a slice that becomes a [u8; 32]: the derived reader cannot produce another length",
+    ("VRFCert", "VRFCert::new"): "block-header type, not part of a transaction (its proof length is outside this property)",
+    ("DRep", "DRep::from_bech32_internal"): "a parser, its errors are about the text form",
+    ("Value", "Value::checked_add"): "arithmetic error, not a validity condition of the stored fields",
+    ("Value", "Value::checked_sub"): "same",
+}
+
+
+def rule_json_valid(rep, F):
+    """a derived JSON reader builds the struct without running the checks its constructors / setters make"""
+    import fieldflow as ff
+    import mustpass as mp
+    rep.rule("JSON-valid", "no struct with a *derived* JSON reader has an inherent constructor / setter that can refuse its input (a Result-returning function that builds or fills the struct and has an error exit) outside the audited list: from_json would build values the typed API refuses - a MintAssets with a zero amount - and the writer emits them")
+    der = set()
+    for im in F.impls:
+        if im.get("trait") == "serde::Deserialize" and im.get("derive"):
+            der.add(im.get("self_adt") or im["self_ty"])
+    n = 0
+    for adt in sorted(der):
+        if adt not in F.adts or F.adts[adt]["kind"] != "struct":
+            continue
+        short = adt.rsplit("::", 1)[-1]
+        n += 1
+        for fid, fn in F.fns.items():
+            if "/tests/" in fn["file"] or F.is_derived(fid) or "::{closure" in fid or "serialization" in fn["file"] or not F.key(fid).startswith(short + "::"):
+                continue
+            if not fn["locals"][0].startswith("std::result::Result<"):
+                continue
+            ffs = ff.FnFields(F, fid)
+            builds = bool(ffs.aggregates_of(adt)) or any(s_[0] == adt for s_ in ffs.stores) or any((c.to or "").endswith("::insert") for c in F.calls(fid))
+            if not builds or not mp.error_stores(F, fid):
+                continue
+            rep.inst("JSON-valid")
+            if (short, F.key(fid)) in JSON_VALID_OK:
+                rep.allow("JSON-valid")
+                continue
+            rep.violation("JSON-valid", "%s|%s" % (short, F.key(fid)), "%s can refuse its input, but %s has a derived JSON reader that fills the struct directly: %s::from_json accepts what the typed API rejects (e.g. {\"61\": \"0\"} for MintAssets) and to_bytes() writes it" % (F.key(fid), short, short), {})
+    rep.floor("structs with a derived JSON reader", 80, n)
+
+
 def check(rep, F, tier, replay=None):
     cddl = common.load_table("conway_cddl.json")
     aud = common.load_table("e2_audited.json")
@@ -975,6 +1018,7 @@ def check(rep, F, tier, replay=None):
     rule_pos_field(rep, F, cddl)
     rule_mint_nonzero(rep, F)
     rule_bundle_typed(rep, F)
+    rule_json_valid(rep, F)
     rule_size_field(rep, F, cddl)
     rule_int_width(rep, F, cddl)
     return rep.finish(EXPLANATION, ASSUMPTIONS, trusted_base=["csl-facts driver (HIR/MIR dump of the type-checked crate)", "tables/conway_cddl.json (CDDL transcription)", "tables/e2_audited.json", "tables/body_origins.json", "cbor_event head encoding"])
